@@ -46,6 +46,8 @@ TEMPLATES = [
     ["Foo v. Bar, ", "1 U.S. 1", ", 12 Marsh.(Ky.) 345 (1829)", ". ", "Id. at 5", " (quoting (x) y)"],
     ["Smith v. Jones (2001) ", "3 Cal. 4th 5", ", ", "2 F.2d 2", "; ", "Roe v Wade ", "394 U. S. 618", ", 5-6", " (2d Cir. 1999)"],
     ["Mass. Gen. Laws ch. 1, § 2", " (West 1999)", " ", "1 Minn. L. Rev. 1", ", 5-6", " (1999)", " (overruling (x) (y) z)"],
+    ["Foo v. Bar, ", "1 U.S. 1", ", 5-6", ". ", "See ", "Roe v Wade ", "2 F.2d 2", " (2005)", ". "],
+    ["Foo v. Bar, ", "1 U.S. 1", ", ", "2 F.2d 2", ", ", "3 Cal. 4th 5", ". ", "People v. Doe, ", "394 U. S. 618", " (1999)"],
 ]
 
 
